@@ -361,6 +361,10 @@ def configs(tier: str):  # noqa: ANN201
         yield {"keys": keys, "cancels": [], "expire": False, "limit": 1, "outcome": "cancel-first"}
         yield {"keys": keys, "cancels": [], "expire": True, "jump": True, "limit": 2, "outcome": "cancel-first"}
     yield {"keys": ["A", "A", "A"], "cancels": [], "expire": True, "jump": True, "limit": 1, "outcome": "mixed-cancel"}
+    # limit 0: nothing is kept, every entry is evicted as soon as it was made - the invocation behind it still runs to its end
+    for keys, cancels in ((["A"], [0]), (["A", "A"], [0]), (["A", "A"], [0, 1]), (["A", "B", "A"], [1])):
+        for outcome in ("value", "raise"):
+            yield {"keys": keys, "cancels": cancels, "expire": False, "limit": 0, "outcome": outcome}
     # every caller is cancelled and the owner drops the cached function while the invocation is still running
     yield {"keys": ["A", "A"], "cancels": [0, 1], "expire": False, "limit": 1, "outcome": "value", "drop": True}
     yield {"keys": ["A", "B"], "cancels": [0, 1], "expire": False, "limit": 2, "outcome": "value", "drop": True}
